@@ -669,7 +669,7 @@ func (fr *Frame) enterLoop(st *State, li *loopInfo, run *loopRun) *State {
 	loopAlloc := st.alloc
 	// 1. invariant on entry
 	if spec != nil {
-		sc := fr.loopScope(st, loopAlloc)
+		sc := fr.loopScope(st, loopAlloc, st)
 		for i, inv := range spec.Invariants {
 			g := fr.evalBool(sc, inv.E)
 			fr.oblige(st, "inv-entry", lname+"."+clauseName(inv, i), g, inv, pos)
@@ -694,7 +694,7 @@ func (fr *Frame) enterLoop(st *State, li *loopInfo, run *loopRun) *State {
 	run.preHeaps = map[string]Term{}
 	ws := fr.loopWriteSet(li)
 	if spec != nil && spec.HasMod {
-		sc := fr.loopScope(st, loopAlloc)
+		sc := fr.loopScope(st, loopAlloc, st)
 		run.targets = fr.resolveTargets(sc, spec.Modifies)
 		if ws.all {
 			// the frame is checked against every heap known so far
@@ -738,7 +738,7 @@ func (fr *Frame) enterLoop(st *State, li *loopInfo, run *loopRun) *State {
 		}
 	}
 	if spec != nil {
-		sc := fr.loopScope(nst, loopAlloc)
+		sc := fr.loopScope(nst, loopAlloc, st)
 		for _, inv := range spec.Invariants {
 			fr.assume(nst, fr.evalBool(sc, inv.E))
 		}
@@ -782,7 +782,7 @@ func (fr *Frame) backEdge(st *State, li *loopInfo, run *loopRun, from *ssa.Basic
 		}
 	}
 	if spec != nil {
-		sc := fr.loopScope(st, run.hdr.alloc)
+		sc := fr.loopScope(st, run.hdr.alloc, run.hdr)
 		for i, inv := range spec.Invariants {
 			parts := SplitConj(inv.E)
 			for k, p := range parts {
@@ -803,7 +803,7 @@ func (fr *Frame) backEdge(st *State, li *loopInfo, run *loopRun, from *ssa.Basic
 	// termination
 	var dec1 []Val
 	if spec != nil && len(spec.Decreases) > 0 {
-		sc := fr.loopScope(st, run.hdr.alloc)
+		sc := fr.loopScope(st, run.hdr.alloc, run.hdr)
 		for _, d := range spec.Decreases {
 			dec1 = append(dec1, fr.evalExpr(sc, d))
 		}
